@@ -11,6 +11,7 @@ mod s_c10;
 mod s_c13;
 mod selftest;
 mod t_c08;
+mod t_c11;
 mod t_c12;
 mod t_c18;
 mod t_c19;
@@ -20,6 +21,7 @@ use report::Report;
 pub fn t_catalogue(prop: &str) -> Option<Vec<tcommon::Scn>> {
   match prop {
     "C08" => Some(t_c08::scenarios()),
+    "C11" => Some(t_c11::scenarios()),
     "C12" => Some(t_c12::scenarios()),
     "C18" => Some(t_c18::scenarios()),
     "C19" => Some(t_c19::scenarios()),
@@ -30,7 +32,7 @@ pub fn t_catalogue(prop: &str) -> Option<Vec<tcommon::Scn>> {
 fn check(prop: &str, tier: &str) -> i32 {
   rxverif_rt::exec::install_quiet_panic_hook();
   match prop {
-    "C08" | "C12" | "C18" | "C19" => {
+    "C08" | "C11" | "C12" | "C18" | "C19" => {
       let mut r = Report::new(prop, tier, "T");
       r.assumptions = t_assumptions();
       tcommon::run_scenarios(&mut r, t_catalogue(prop).unwrap(), tier);
